@@ -51,9 +51,19 @@ func expandSubdirs(out *[]string, input []string) error {
 }
 
 
+// Number of leading bytes to cut from a path below the tree root to get the name in the stage:
+// nothing when the root is / itself, since the name keeps its leading slash
+func (fl *FileList) rootChopLength() int {
+	if fl.rootDir == "/" {
+		return 0
+	}
+	return len(fl.rootDir)
+}
+
+
 func (fl *FileList) removeFiles(entry lineInfo) error {
 	treeroot := fl.rootDir
-	leadLength := len(treeroot)
+	leadLength := fl.rootChopLength()
 	name := entry.name
 	if entry.hasWildcard {
 		names, err := globFiles(path.Join(treeroot, name), false)
@@ -113,7 +123,7 @@ func (fl *FileList) addFromWildcard(entry lineInfo) error {
 		prefix = name
 	} else {
 		globname = path.Join(fl.rootDir, name)
-		choplen = len(fl.rootDir)
+		choplen = fl.rootChopLength()
 	}
 	names, err := globFiles(globname, entry.ltype == vdb.FileType_dir)
 	if err != nil {
